@@ -34,11 +34,12 @@ Alarm(mon, e, what, cause, g, s, outcome) ==
   [mon |-> mon, scenario |-> scen, ev |-> e.ev, line |-> l,
    detail |-> [what |-> what, cause |-> cause, group |-> g, share |-> s, outcome |-> outcome]]
 
-Snap(d, sv, p) == [disk |-> d, served |-> sv, pc |-> p]
+\* pk = <<group file, share file>> as they were before the last DKG completion / leave started
+Snap(d, sv, p, pk) == [disk |-> d, served |-> sv, pc |-> p, pk |-> pk]
 
 TraceInit == /\ script = << >> /\ steps = << >> /\ pc = 1 /\ disk = EmptyDisk /\ served = {}
              /\ mode = "run" /\ rec = NoRec
-             /\ l = 1 /\ alarms = {} /\ scen = "none" /\ hist = << Snap(EmptyDisk, {}, 1) >>
+             /\ l = 1 /\ alarms = {} /\ scen = "none" /\ hist = << Snap(EmptyDisk, {}, 1, <<Absent, Absent>>) >>
 
 StepReset(e) ==
   /\ e.ev = "Reset"
@@ -46,7 +47,7 @@ StepReset(e) ==
   /\ steps' = Expand(e.script)
   /\ pc' = 1 /\ disk' = EmptyDisk /\ served' = {} /\ mode' = "run" /\ rec' = NoRec
   /\ scen' = e.scenario
-  /\ hist' = << Snap(EmptyDisk, {}, 1) >>
+  /\ hist' = << Snap(EmptyDisk, {}, 1, <<Absent, Absent>>) >>
   /\ alarms' = alarms
 
 \* the logged step as a spec step
@@ -70,7 +71,8 @@ StepStep(e) ==
          A2 == IF e.j # Len(hist)
                  THEN {Alarm("Conformance", e, "step counter", "-", "-", "-", "-")} ELSE {}
      IN /\ pc' = npc /\ disk' = d2 /\ served' = sv2
-        /\ hist' = Append(hist, Snap(d2, sv2, npc))
+        /\ hist' = Append(hist, Snap(d2, sv2, npc,
+                                     IF IsKeyStart(AsStep(e)) THEN <<disk.group, disk.share>> ELSE hist[Len(hist)].pk))
         /\ alarms' = alarms \cup A1 \cup A2
   /\ UNCHANGED <<script, steps, mode, rec, scen>>
 
@@ -88,8 +90,8 @@ StepRestart(e) ==
          or == ObsRec(e.rec)
          expect == RestartOf(od).rec
          cause == Cause(steps, pre.pc - 1)
-         g == Cls(or.groupEpoch, or.finishedEpoch, cause)
-         s == Cls(or.shareEpoch, or.finishedEpoch, cause)
+         g == Cls(or.groupEpoch, or.finishedEpoch, pre.pk[1])
+         s == Cls(or.shareEpoch, or.finishedEpoch, pre.pk[2])
          A0 == IF ~known THEN {Alarm("Conformance", e, "restart of an unknown crash point", "-", "-", "-", "-")} ELSE {}
          A1 == IF od # pre.disk
                  THEN {Alarm("Conformance", e, "disk: the persistent state read from the copy differs from the specification's", cause, g, s, or.outcome)}
